@@ -19,6 +19,9 @@ type pool struct {
 	activeCount int
 	nextIdx     int
 
+	// cooldownUntil holds the expiry time of the cool-down a peer is currently on
+	cooldownUntil map[peer.ID]time.Time
+
 	hasPeer   bool
 	hasPeerCh chan struct{}
 
@@ -38,6 +41,7 @@ func newPool(peerCooldownTime time.Duration) *pool {
 	p := &pool{
 		peersList:        make([]peer.ID, 0),
 		statuses:         make(map[peer.ID]status),
+		cooldownUntil:    make(map[peer.ID]time.Time),
 		hasPeerCh:        make(chan struct{}),
 		cleanupThreshold: defaultCleanupThreshold,
 	}
@@ -129,6 +133,7 @@ func (p *pool) remove(peers ...peer.ID) {
 	for _, peerID := range peers {
 		if status, ok := p.statuses[peerID]; ok && status != removed {
 			p.statuses[peerID] = removed
+			delete(p.cooldownUntil, peerID)
 			if status == active {
 				p.activeCount--
 			}
@@ -183,7 +188,7 @@ func (p *pool) putOnCooldown(peerID peer.ID) {
 	defer p.m.Unlock()
 
 	if status, ok := p.statuses[peerID]; ok && status == active {
-		p.cooldown.push(peerID)
+		p.cooldownUntil[peerID] = p.cooldown.push(peerID)
 
 		p.statuses[peerID] = cooldown
 		p.activeCount--
@@ -199,6 +204,12 @@ func (p *pool) afterCooldown(peerID peer.ID) {
 	if status, ok := p.statuses[peerID]; !ok || status != cooldown {
 		return
 	}
+	// a stale queue item, left behind by a peer that was removed and added again while cooling
+	// down, must not cut short the cool-down the peer has been put on since
+	if p.cooldown.clock.Now().Before(p.cooldownUntil[peerID]) {
+		return
+	}
+	delete(p.cooldownUntil, peerID)
 
 	p.statuses[peerID] = active
 	p.activeCount++
